@@ -87,24 +87,44 @@ def twin(exe, root, seed, stats):
     problems = []
     def both(f):
         for s in sims: f(s)
-    def cmp_parity(when):
+    def cmp_parity(when, after_fix=False):
         a1, a2 = arrs
-        for l in range(npar):
-            p1, p2 = a1.parity_bytes(l), a2.parity_bytes(l)
-            stats['compares'] += 1
-            if p1 != p2:
-                n = min(len(p1), len(p2))
-                off = next((i for i in range(n) if p1[i] != p2[i]), n)
-                return '%s: concatenation of the %d splits of level %d differs from the single-file parity (lengths %d vs %d, first difference at byte %d)' % (when, nsplit, l, len(p2), len(p1), off)
-        # recorded split sizes == file sizes, block aligned, only the last used split partial
         dec = fx.decode(a2)
+        bs = a2.block
+        used = set()
+        for f in dec.files:
+            for pos, kind, h in f['blocks']:
+                used.add(pos)
         for lev, tot, free, sp in dec.parity:
+            if lev >= npar: continue
+            sizes = [x[2] for x in sp]
+            p1 = a1.parity_bytes(lev)
+            stats['compares'] += 1
+            if not after_fix:
+                p2 = a2.parity_bytes(lev)
+                if p1 != p2:
+                    n = min(len(p1), len(p2))
+                    off = next((i for i in range(n) if p1[i] != p2[i]), n)
+                    return '%s: concatenation of the %d splits of level %d differs from the single-file parity (lengths %d vs %d, first difference at byte %d)' % (when, nsplit, lev, len(p2), len(p1), off)
+            else:
+                # a fix materialises only the stripes it rewrites (a split may end before its recorded size where the
+                # trailing stripes hold no block; the next sync regrows it): compare every stripe that holds a block,
+                # read through the recorded split sizes
+                files = [open(pf, 'rb').read() if os.path.exists(pf) else b'' for pf in a2.parity_files(lev)]
+                for pos in sorted(used):
+                    off = pos * bs
+                    i = 0
+                    while i < len(sizes) and off >= sizes[i]:
+                        off -= sizes[i]; i += 1
+                    blk = files[i][off:off + bs] if i < len(sizes) else b''
+                    if blk != p1[pos * bs:(pos + 1) * bs]:
+                        return '%s: stripe %d of level %d read through the split map (split %d offset %d) differs from the single-file parity' % (when, pos, lev, i, off)
             for i, (path, uuid, size) in enumerate(sp):
                 pf = a2.parity_files(lev)[i]
                 fs = os.path.getsize(pf) if os.path.exists(pf) else 0
-                if fs != size:
+                if fs > size or (fs != size and not after_fix):
                     return '%s: split %d of level %d has %d bytes on disk, %d recorded' % (when, i, lev, fs, size)
-                if size % a2.block:
+                if size % bs:
                     return '%s: recorded split size %d not block aligned' % (when, size)
         return None
     npop = 2 + rng.below(3)
@@ -126,11 +146,13 @@ def twin(exe, root, seed, stats):
             lev = rng.below(npar); which = rng.below(nsplit)
             pf = arrs[1].parity_files(lev)[which]
             if os.path.exists(pf) and os.path.getsize(pf) > 0:
-                os.unlink(pf)
+                # the same loss on both twins: the whole level (all its splits / the single file)
+                for q in arrs[1].parity_files(lev):
+                    if os.path.exists(q): os.unlink(q)
                 os.unlink(arrs[0].parity_files(lev)[0])
                 r = [a.cmd('fix', *(lim if a.splits > 1 else [])) for a in arrs]
                 stats['fixes'] += 1
-                p = cmp_parity('after fix of lost split %d of level %d' % (which, lev))
+                p = cmp_parity('after fix of lost level %d' % lev, after_fix=True)
                 if p:
                     problems.append((p + ' (splits=%d limit=%d)' % (nsplit, limit), '\n'.join(sims[1].history))); break
         # same file operations on both (same rng stream)
